@@ -57,23 +57,27 @@ CLAIMED['C12'] = dict(
     note='Trusted: Kani/CBMC, dev-profile semantics; memchr/fmt::format stubs. Not covered: the several hundred expect/unwrap sites whose preconditions are libclang AST shapes, stack depth, termination, what libclang reports for a header and real file-system behaviour (both modelled).',
     ref='DESIGN.md section 3, C12')
 CLAIMED['C13'] = dict(
-    text='Codec level: parse(to_string(v)) = v for every value of EnumVariation, MacroTypeVariation, AliasVariation, NonCopyUnionStyle, Formatter, FieldVisibilityKind, Abi, RustEdition, nightly; RustTarget::from_str on shape-parameterised strings returns the decimal value written; CodegenConfig <-> --generate/--ignore-* for all 63 non-empty values through the real as_args closure and the real parse_codegen_config; header ordering: the clang command line of the builder rebuilt from command_line_flags() equals the original one for 1..4 headers.',
-    note='Trusted: Kani/CBMC; three listed mechanical rewrites (owned strings -> tokens) in the as_args / command_line_flags slices; clap parsing is modelled (positional header, -- separator). Not covered: clap derive layer, the 117-entry as_args/builder table, defaults, byte-identical bindings.',
+    text='Codec level: parse(to_string(v)) = v for every value of EnumVariation, MacroTypeVariation, AliasVariation, NonCopyUnionStyle, Formatter, FieldVisibilityKind, Abi, RustEdition, nightly; RustTarget::from_str on shape-parameterised strings returns the decimal value written; CodegenConfig <-> --generate/--ignore-* for all 63 non-empty values through the real as_args closure and the real parse_codegen_config; header ordering: the clang command line of the builder rebuilt from command_line_flags() equals the original one for 1..4 headers; value parsers: TYPE::FIELD=ATTR (parse_field_attr, attributes containing "=", type patterns containing "::") and REGEX=ABI (parse_abi_override, regexes containing "=", all 10 ABIs) read back what as_args prints.',
+    note='Trusted: Kani/CBMC; listed mechanical rewrites (owned strings -> tokens / borrowed slices, string-pattern search -> naive search) in the as_args / command_line_flags / value-parser slices; clap parsing is modelled (positional header, -- separator). Not covered: clap derive layer, the 117-entry as_args/builder table, defaults, byte-identical bindings.',
     ref='DESIGN.md section 3, C13')
 CLAIMED['C15'] = dict(
     text='Bounded model checking of the real Bindings::write / format_tokens / rustfmt_path against a nondeterministic child process: for every spawn outcome, stdin refusal, <= 2 output bytes with a read error anywhere, wait() error and ANY raw 32-bit wait status (through the real ExitStatusExt::from_raw) write() returns Ok unless the writer fails, the body is the formatter output exactly when it ran to completion with status 0 or 3 and valid UTF-8, else the unformatted tokens; header comment and raw lines appear once, in order, for formatter none/prettyplease with a writer failing at any byte.',
     note='Trusted: Kani/CBMC; process/io stubs; one rewrite (::std::thread::spawn -> synchronous stub). Not covered: token equality of formatter output, hangs/deadlocks/scheduling, large inputs.',
     ref='DESIGN.md section 3, C15')
 
+CLAIMED['C06'] = dict(
+    text='Assertion-block level: bounded model checking of the real layout_tests statement of CompInfo::codegen and of the whole impl CodeGenerator for TemplateInstantiation, compiled against token stubs that decode each quote! template. For every layout (any usize size / alignment, or unknown), up to 3 fields (data member or bit-field unit, name and offset known or not), forward declaration, opacity, layout_tests and offset_of: exactly one block is emitted for a composite with a known layout, asserting the layout size, the layout alignment and the byte offset of every named non-bit-field member with a known offset, in order and nothing else (no member checks for opaque blobs); a concrete, non-opaque template instantiation with a known layout gets a size + alignment block; nothing is emitted with layout tests disabled, for forward declarations, unknown layouts, opaque or generic instantiations; the const-block vs #[test] form follows the offset_of feature and the run-time form declares `ptr` exactly when it is used.',
+    note='Trusted: Kani/CBMC; the quote! decoding macros; the numbers in the IR (libclang: Type::fallible_layout, Cursor::offset_of_field) - i.e. "equals what the C compiler computes for the target" is NOT claimed; that the statement is reached only for non-template composites is checked syntactically by the slicer (guard text present). Not covered: cross-target runs, that the assertion text compiles, instantiation discovery.',
+    ref='DESIGN.md section 3, C06')
+
 NOT_APPLICABLE = {
     'C17': 'the only computation of the property that is separable from libclang is DepfileSpec::to_string, which is String::replace x2 inside format!: not encodable under CBMC in reach (measured: three class-pattern instances of <= 3-byte names each ran into the 1200 s limit; gen/props/c17.py is kept but not registered); completeness/exactness of the file set needs libclang and clang -M',
-    'C06': 'layout assertions are assembled by quote! templates inside CompInfo::codegen over numbers libclang supplies at run time; there is no separable computation to encode, and cross-target truth needs that target\'s C compiler (DESIGN.md section 3, C06)',
     'C11': 'quantifies over processes, hash seeds, thread interleavings and in-process histories; Kani has no concurrency/process model and the hash containers whose iteration order matters are exactly what the stub environment replaces (DESIGN.md section 3, C11)',
     'C16': 'serialize.rs writes C text while walking the real IR by item id; needs the real BindgenContext (not encodable under CBMC, measured) and a C compiler as oracle (DESIGN.md section 3, C16)',
 }
 
 PENDING = {p: 'planned (DESIGN.md section 3) but its check is not built yet; not claimed until it is' for p in
-           ['C01','C02','C03','C04','C05','C07','C08','C09','C10','C12','C13','C15','C18'] if p not in CLAIMED}
+           ['C01','C02','C03','C04','C05','C06','C07','C08','C09','C10','C12','C13','C15','C18'] if p not in CLAIMED}
 
 
 def main():
